@@ -559,6 +559,32 @@ def D60():
     r = eao.portfolio.Portfolio([sc('sc', min_cap=-100, max_cap=100), sa]).setup_optim_problem({'p': 10 * np.ones(tg.T)}, tg).optimize()
     return 'order book with an order outside the horizon + transport inside a structured asset: value %.2f (flat portfolio: 432.00)' % r.value
 
+@witness
+def D61():
+    tg = A.Timegrid(dt.datetime(2021, 1, 1, 0), dt.datetime(2021, 1, 1, 4), freq='h', main_time_unit='h')
+    pl = A.Plant(name='p', nodes=[A.Node('power')], price='price', min_cap=5., max_cap=10., start_ramp_lower_bounds=[1, 2, 3, 4, 5, 6, 7], time_already_running=2)
+    r = pl.setup_optim_problem({'price': np.ones(tg.T)}, timegrid=tg).optimize()
+    return 'start ramp of 7 steps, running for 2, horizon of 4 steps: dispatch %s (expected the remaining profile 3 4 5 6)' % (r if isinstance(r, str) else np.round(r.x[:4], 3))
+
+
+@witness
+def D62():
+    tg = A.Timegrid(dt.datetime(2021, 1, 1, 0), dt.datetime(2021, 1, 1, 3), freq='h', main_time_unit='h')
+    pl = A.Plant(name='p', nodes=[A.Node('power')], price='price', min_cap=5., max_cap=10., ramp=3., shutdown_ramp_lower_bounds=[4, 3, 2, 1], time_already_running=5, last_dispatch=6.)
+    op = pl.setup_optim_problem({'price': np.ones(tg.T)}, timegrid=tg)
+    return 'shutdown ramp of 4 steps on a horizon of 3 steps, ramp given: problem with %d rows and %d variables is set up' % op.A.shape
+
+
+@witness
+def D63():
+    import pandas as pd
+    tg = A.Timegrid(pd.Timestamp(2021, 3, 22), pd.Timestamp(2021, 4, 5), freq='d', timezone='CET')   # dt[6] = 23 h
+    p = np.zeros(tg.T); p[6] = -10.
+    a = A.SimpleContract(name='c', nodes=A.Node('n'), price='p', min_cap=0., max_cap=1., freq='7d')
+    v = a.setup_optim_problem({'p': p}, timegrid=tg).optimize().value
+    return "weekly contract on a daily CET grid over the DST switch, price -10 on the 23 h day: value %.2f (fine problem with constant weekly rate: 230.00)" % v
+
+
 if __name__ == '__main__':
     which = sys.argv[1:] or list(W)
     for k in which:
